@@ -2,6 +2,7 @@ package main
 
 import (
 	"fmt"
+	"os"
 	"runtime"
 	"sort"
 	"sync"
@@ -172,7 +173,7 @@ func (e *Engine) Run() error {
 	if e.Workers <= 0 {
 		e.Workers = runtime.NumCPU()
 	}
-	e.dirtyLeft, e.dirtyLeftRB = 4, 8
+	e.dirtyLeft, e.dirtyLeftRB = 4, 24
 	e.index = map[[32]byte]int32{}
 	e.Wit = map[string]int64{}
 	e.Outcomes = map[string]int64{}
@@ -569,7 +570,7 @@ func (e *Engine) dirtyContinuation(x *OCtx, pre *State, a Action) []Found {
 						found[vi.Sig] = &Found{Violation: vi, Trace: append([]string{a.Name}, seq...), Count: 1}
 					}
 				}
-				if halt || len(vs) > 0 {
+				if halt {
 					return nil
 				}
 			}
@@ -587,6 +588,9 @@ func (e *Engine) dirtyContinuation(x *OCtx, pre *State, a Action) []Found {
 		}
 	}
 	rec(nil)
+	if os.Getenv("VERIF_DEBUG_CONT") != "" {
+		fmt.Fprintf(os.Stderr, "continuation after %s (ok=%v) from a state at height %d: %d signatures\n", a.Name, a.Kind, pre.Height, len(found))
+	}
 	var out []Found
 	for _, f := range found {
 		out = append(out, *f)
